@@ -1200,6 +1200,61 @@ def q_pool_new(ex, args, kwargs):
     return o
 
 
+def now(x):
+    """the live object that the entry-state copy x stands for (x itself when it is not a copy)"""
+    return C._ORIGIN.get(id(x), x)
+
+
+def q_now(ex, args, kwargs):
+    (x,) = args
+    if isinstance(x, PRef):
+        return PRef(Ref(x.mref.oid), x.key, x.opt)
+    if isinstance(x, Ref):
+        return Ref(x.oid)
+    return x
+
+
+def forall_objs(pool, f):
+    """f(o) holds for every object of the pool"""
+    return all(f(o) for o in pool.values())
+
+
+def q_forall_objs(ex, args, kwargs):
+    pool_r, f = args
+    pool = _pool_arg(ex, pool_r)
+    i = ex.fresh_sym('int', 'qo')
+    o = PRef(pool_r, i, False)
+    n0 = len(ex.pc)
+    ex.quant += 1
+    ex.spec_mode += 1
+    try:
+        body = ex.truth(ex.call(f, [o], {}))
+    finally:
+        ex.quant -= 1
+        ex.spec_mode -= 1
+    added = ex.pc[n0:]
+    del ex.pc[n0:]
+    b = zbool(body) if not isinstance(body, bool) else z3.BoolVal(body)
+    return mk_bool(z3.ForAll([i.t], z3.Implies(z3.And(i.t >= 0, z3.Select(pool.dom, i.t), *added), b)))
+
+
+def obj_same(new, old, o):
+    """the object o has the same modelled fields in the two pool states"""
+    for i, x in old.items():
+        if x is o or C._ORIGIN.get(id(x)) is o or x is C._ORIGIN.get(id(o)):
+            return vars(new[i]) == vars(x) if not isinstance(x, dict) else new[i] == x
+    return True
+
+
+def q_obj_same(ex, args, kwargs):
+    new, old, o = args
+    pn, po = _pool_arg(ex, new), _pool_arg(ex, old)
+    if o is None:
+        return True
+    idt = zint(o.key)
+    return mk_bool(z3.And(*[z3.Select(pn.cols[n][0], idt) == z3.Select(po.cols[n][0], idt) for n in po.cols]))
+
+
 def allocated(ref, pool):
     return any(o is ref for o in pool.values())
 
@@ -1216,6 +1271,9 @@ def q_allocated(ex, args, kwargs):
 seqspec.SPEC_FORMS.update({
     forall_items: q_forall_items,
     forall_elems: q_forall_elems,
+    forall_objs: q_forall_objs,
+    obj_same: q_obj_same,
+    now: q_now,
     pool_same_except: q_pool_same_except,
     dict_same: q_dict_same,
     dict_same_except: q_dict_same_except,
